@@ -3,20 +3,28 @@ from __future__ import annotations
 
 import json
 
-from . import drv_fcs, drv_hdlc
+from . import drv_fcs, drv_hdlc, drv_p1, drv_readers
 
 CHECKS = {
     "C01": (drv_hdlc.run_c01, "model_checking"),
     "C02": (drv_hdlc.run_c02, "model_checking"),
     "C03": (drv_fcs.run, "model_checking"),
+    "C04": (drv_p1.run_c04, "model_checking"),
+    "C05": (drv_p1.run_c05, "model_checking"),
     "C06": (drv_hdlc.run_c06, "model_checking"),
+    "C16": (drv_readers.run_c16, "model_checking"),
+    "C19": (drv_readers.run_c19, "model_checking"),
 }
 
 REPLAYERS = {
     "C01": drv_hdlc.replay_c01,
     "C02": drv_hdlc.replay_c02,
     "C03": drv_fcs.replay,
+    "C04": drv_p1.replay_c04,
+    "C05": drv_p1.replay_c05,
     "C06": drv_hdlc.replay_c06,
+    "C16": drv_readers.replay_c16,
+    "C19": drv_readers.replay_c19,
 }
 
 
